@@ -1,4 +1,539 @@
-//! `singleton`: not built yet.
-pub fn run_case(_line: &str) -> String {
-    "unimplemented".to_string()
+//! `singleton`: cadence_macros::SingletonHolder under a controlled scheduler (hook H1,
+//! `cadence_macros::verif`).
+//!
+//! Every traced operation of `state.rs` (atomic load / store / compare_exchange on `state`,
+//! `UnsafeCell::get` on `value`) calls the tracer installed here BEFORE it runs; the tracer
+//! parks the calling OS thread on a Mutex + Condvar until the controller grants it exactly one
+//! operation.  Each park takes a fresh ticket and the controller flips the thread's status away
+//! from "parked" when it grants, so a stale "parked" record can never be mistaken for a new one.
+//! A fresh `SingletonHolder<Payload>` is used for every schedule.
+//!
+//! case:   A <prog>            every SC interleaving of the program (depth-first, lowest thread first)
+//!         S <prog> <sched>    exactly this schedule (string of thread digits; entries naming a thread
+//!                             that has finished are skipped and counted in `stuck`; when the string is
+//!                             exhausted the lowest runnable thread continues)
+//!   prog = threads separated by '/', calls separated by '.':  s<id> (set with payload id) | g (get) | i (is_set)
+//! observation:  n=<number of entries> <entry>;<entry>;...
+//!   entry   = <sched>|<ops>|<results>      followed, only when something is abnormal, by
+//!             |!same=<0|1>,intact=<0|1>,stuck=<n>,overflow=<0|1>
+//!   ops     = comma separated  <thread>.<call index>.<op>
+//!     op    = C<success><failure>:<current>:<new>:k<previous> | C..:e<actual>   compare_exchange
+//!           | L<order><value read> | S<order><value stored>
+//!           | W | R          UnsafeCell::get inside set (W) / inside get or is_set (R)
+//!     orderings: r l a q s = Relaxed Release Acquire AcqRel SeqCst
+//!   results = threads separated by '/', per thread '.' separated:  u (set returned) | n (get: None)
+//!           | v<id> (get: Some, payload id) | t | f (is_set) | p (panicked; the thread stops)
+//!   same    = all values returned by get in this schedule are the same Arc (Arc::ptr_eq)
+//!   intact  = every payload returned has the checksum it was built with (fully constructed)
+//!   stuck   = schedule entries that named a thread that was not runnable
+//!   overflow= more than 96 traced operations (e.g. a spin loop): the threads were released to run freely
+use cadence_macros::verif::{self, Event, Op, Ordering, Outcome};
+use cadence_macros::SingletonHolder;
+use std::cell::{Cell, RefCell};
+use std::sync::{Arc, Condvar, Mutex, Once};
+use std::time::Duration;
+
+const MAGIC: u64 = 0x9e37_79b9_7f4a_7c15;
+const MAX_STEPS: usize = 96;
+
+pub struct Payload {
+    id: u64,
+    check: u64,
+    body: Vec<u64>,
+}
+
+impl Payload {
+    fn new(id: u64) -> Payload {
+        Payload {
+            id,
+            check: id.rotate_left(17) ^ MAGIC,
+            body: vec![id; 4],
+        }
+    }
+    fn intact(&self) -> bool {
+        self.check == self.id.rotate_left(17) ^ MAGIC && self.body.len() == 4 && self.body.iter().all(|x| *x == self.id)
+    }
+}
+
+#[derive(Clone, Copy, PartialEq, Debug)]
+enum Call {
+    Set(u64),
+    Get,
+    IsSet,
+}
+
+enum Res {
+    Unit,
+    Get(Option<Arc<Payload>>),
+    IsSet(bool),
+    Panic,
+}
+
+#[derive(Clone, Copy, PartialEq, Debug)]
+enum St {
+    Running,
+    Parked(u64),
+    Granted(u64),
+    Done,
+}
+
+/// Everything the controller and the worker threads share, under one mutex.
+struct Inner {
+    // job control: the worker threads live for a whole case and run one job per schedule
+    generation: u64,
+    quit: bool,
+    holder: Option<Arc<SingletonHolder<Payload>>>,
+    results: Vec<Vec<Res>>,
+    // one schedule
+    status: Vec<St>,
+    next_ticket: u64,
+    log: Vec<String>,
+    free_run: bool,
+    started: bool,  // all threads have reached their first operation (or finished)
+    finished: bool, // no runnable thread is left
+    prefix: Vec<usize>,
+    pos: usize,
+    strict: bool,
+    chosen: Vec<usize>,
+    enabled_sets: Vec<Vec<usize>>,
+    stuck: usize,
+    overflow: bool,
+    error: Option<String>,
+}
+
+struct Sched {
+    m: Mutex<Inner>,
+    ctl: Condvar,      // the controller waits here
+    cvs: Vec<Condvar>, // worker thread t waits on cvs[t]
+}
+
+struct Role {
+    tid: usize,
+    call: Cell<usize>,
+    in_set: Cell<bool>,
+    sched: Arc<Sched>,
+}
+
+thread_local! {
+    static ROLE: RefCell<Option<Role>> = RefCell::new(None);
+}
+
+fn ord(o: Ordering) -> char {
+    match o {
+        Ordering::Relaxed => 'r',
+        Ordering::Release => 'l',
+        Ordering::Acquire => 'a',
+        Ordering::AcqRel => 'q',
+        Ordering::SeqCst => 's',
+        _ => '?',
+    }
+}
+
+fn show(op: &Op, outcome: &Outcome, in_set: bool) -> String {
+    match (op, outcome) {
+        (Op::Load { order }, Outcome::Loaded(v)) => format!("L{}{}", ord(*order), v),
+        (Op::Store { val, order }, _) => format!("S{}{}", ord(*order), val),
+        (
+            Op::CompareExchange {
+                current,
+                new,
+                success,
+                failure,
+            },
+            Outcome::Exchanged(r),
+        ) => {
+            let res = match r {
+                Ok(p) => format!("k{}", p),
+                Err(a) => format!("e{}", a),
+            };
+            format!("C{}{}:{}:{}:{}", ord(*success), ord(*failure), current, new, res)
+        }
+        (Op::CellGet, _) => (if in_set { "W" } else { "R" }).to_string(),
+        _ => "?".to_string(),
+    }
+}
+
+/// Choose the thread that performs the next traced operation and grant it.  Called with the
+/// lock held at a moment when every thread is parked or done (exactly one thread runs at a
+/// time: the one that was granted last; it calls this when it parks again or finishes).
+fn decide(g: &mut Inner, sched: &Sched) {
+    let n = g.status.len();
+    let enabled: Vec<usize> = (0..n).filter(|t| matches!(g.status[*t], St::Parked(_))).collect();
+    if enabled.is_empty() {
+        g.finished = true;
+        sched.ctl.notify_one();
+        return;
+    }
+    if g.chosen.len() >= MAX_STEPS {
+        g.overflow = true;
+        g.free_run = true;
+        for c in &sched.cvs {
+            c.notify_all();
+        }
+        return;
+    }
+    let mut choice = enabled[0];
+    while g.pos < g.prefix.len() {
+        let want = g.prefix[g.pos];
+        g.pos += 1;
+        if enabled.contains(&want) {
+            choice = want;
+            break;
+        }
+        if g.strict {
+            g.error = Some(format!("schedule prefix not reproducible (thread {} not runnable)", want));
+        }
+        g.stuck += 1;
+    }
+    if let St::Parked(tk) = g.status[choice] {
+        g.status[choice] = St::Granted(tk);
+    }
+    g.chosen.push(choice);
+    g.enabled_sets.push(enabled);
+    sched.cvs[choice].notify_one();
+}
+
+fn on_event(role: &Role, ev: &Event) {
+    let sched = &role.sched;
+    match ev {
+        Event::Before { .. } => {
+            let mut g = sched.m.lock().unwrap();
+            if g.free_run {
+                return;
+            }
+            let tk = g.next_ticket;
+            g.next_ticket += 1;
+            g.status[role.tid] = St::Parked(tk);
+            if g.started {
+                decide(&mut g, sched);
+            } else {
+                sched.ctl.notify_one();
+            }
+            while !(g.free_run || g.status[role.tid] == St::Granted(tk)) {
+                g = sched.cvs[role.tid].wait(g).unwrap();
+            }
+            g.status[role.tid] = St::Running;
+        }
+        Event::After { op, outcome, .. } => {
+            let mut g = sched.m.lock().unwrap();
+            let tok = format!("{}.{}.{}", role.tid, role.call.get(), show(op, outcome, role.in_set.get()));
+            g.log.push(tok);
+        }
+    }
+}
+
+fn install_tracer() {
+    static ONCE: Once = Once::new();
+    ONCE.call_once(|| {
+        verif::install(Arc::new(|ev: &Event| {
+            ROLE.with(|r| {
+                if let Some(role) = r.borrow().as_ref() {
+                    on_event(role, ev);
+                }
+            });
+        }));
+    });
+}
+
+fn run_calls(calls: &[Call], holder: &SingletonHolder<Payload>) -> Vec<Res> {
+    let mut out = Vec::new();
+    for (ci, c) in calls.iter().enumerate() {
+        ROLE.with(|r| {
+            let b = r.borrow();
+            let role = b.as_ref().unwrap();
+            role.call.set(ci);
+            role.in_set.set(matches!(c, Call::Set(_)));
+        });
+        let r = crate::util::catch(|| match c {
+            Call::Set(id) => {
+                holder.set(Payload::new(*id));
+                Res::Unit
+            }
+            Call::Get => Res::Get(holder.get()),
+            Call::IsSet => Res::IsSet(holder.is_set()),
+        });
+        match r {
+            Ok(x) => out.push(x),
+            Err(_) => {
+                out.push(Res::Panic);
+                break;
+            }
+        }
+    }
+    out
+}
+
+/// A worker thread: one job (= its thread's calls on a fresh holder) per schedule.
+fn worker(tid: usize, calls: &[Call], sched: Arc<Sched>) {
+    ROLE.with(|r| {
+        *r.borrow_mut() = Some(Role {
+            tid,
+            call: Cell::new(0),
+            in_set: Cell::new(false),
+            sched: sched.clone(),
+        })
+    });
+    let mut my_gen = 0u64;
+    loop {
+        let holder = {
+            let mut g = sched.m.lock().unwrap();
+            while !(g.quit || g.generation > my_gen) {
+                g = sched.cvs[tid].wait(g).unwrap();
+            }
+            if g.quit {
+                break;
+            }
+            my_gen = g.generation;
+            g.holder.clone().unwrap()
+        };
+        let out = run_calls(calls, &holder);
+        drop(holder);
+        let mut g = sched.m.lock().unwrap();
+        g.results[tid] = out;
+        g.status[tid] = St::Done;
+        if g.started && !g.free_run {
+            decide(&mut g, &sched);
+        } else {
+            if g.free_run && g.status.iter().all(|s| *s == St::Done) {
+                g.finished = true;
+            }
+            sched.ctl.notify_one();
+        }
+    }
+    ROLE.with(|r| *r.borrow_mut() = None);
+}
+
+struct Exec {
+    sched: Vec<usize>,
+    enabled: Vec<Vec<usize>>,
+    entry: String,
+}
+
+fn wait_ctl<'a>(
+    sched: &'a Sched,
+    mut g: std::sync::MutexGuard<'a, Inner>,
+    ready: impl Fn(&Inner) -> bool,
+) -> std::sync::MutexGuard<'a, Inner> {
+    while !ready(&g) {
+        let (g2, to) = sched.ctl.wait_timeout(g, Duration::from_secs(30)).unwrap();
+        g = g2;
+        if to.timed_out() && !ready(&g) {
+            eprintln!("singleton harness: a thread neither parked nor finished within 30 s");
+            std::process::exit(3);
+        }
+    }
+    g
+}
+
+/// Run the program once on a fresh holder: follow `prefix`, then always the lowest runnable thread.
+/// `strict`: a prefix entry naming a thread that is not runnable is an error (used by the exhaustive
+/// enumeration, where it would mean the implementation is not deterministic under the scheduler);
+/// otherwise such entries are skipped and counted in `stuck`.
+fn run_once(sched: &Arc<Sched>, prefix: &[usize], strict: bool) -> Exec {
+    let mut g = sched.m.lock().unwrap();
+    let n = g.status.len();
+    g.holder = Some(Arc::new(SingletonHolder::new()));
+    g.results = (0..n).map(|_| Vec::new()).collect();
+    g.status = vec![St::Running; n];
+    g.log.clear();
+    g.free_run = false;
+    g.started = false;
+    g.finished = false;
+    g.prefix = prefix.to_vec();
+    g.pos = 0;
+    g.strict = strict;
+    g.chosen.clear();
+    g.enabled_sets.clear();
+    g.stuck = 0;
+    g.overflow = false;
+    g.generation += 1;
+    for c in &sched.cvs {
+        c.notify_one();
+    }
+    // every thread reaches its first traced operation (or finishes without one)
+    g = wait_ctl(sched, g, |i| !i.status.iter().any(|s| matches!(s, St::Running | St::Granted(_))));
+    g.started = true;
+    decide(&mut g, sched);
+    g = wait_ctl(sched, g, |i| i.finished);
+    if let Some(e) = g.error.take() {
+        eprintln!("singleton harness: {}", e);
+        std::process::exit(3);
+    }
+    let stuck = g.stuck + (g.prefix.len() - g.pos);
+    let chosen = std::mem::take(&mut g.chosen);
+    let enabled_sets = std::mem::take(&mut g.enabled_sets);
+    let log = std::mem::take(&mut g.log);
+    let results = std::mem::take(&mut g.results);
+    let overflow = g.overflow;
+    g.holder = None;
+    drop(g);
+    // results and the identity / integrity of what get returned
+    let mut same = true;
+    let mut intact = true;
+    let mut first: Option<Arc<Payload>> = None;
+    let mut res_s = Vec::new();
+    for th in &results {
+        let mut v = Vec::new();
+        for r in th {
+            v.push(match r {
+                Res::Unit => "u".to_string(),
+                Res::Get(None) => "n".to_string(),
+                Res::Get(Some(a)) => {
+                    if !a.intact() {
+                        intact = false;
+                    }
+                    match &first {
+                        None => first = Some(a.clone()),
+                        Some(f) => {
+                            if !Arc::ptr_eq(f, a) {
+                                same = false;
+                            }
+                        }
+                    }
+                    format!("v{}", a.id)
+                }
+                Res::IsSet(true) => "t".to_string(),
+                Res::IsSet(false) => "f".to_string(),
+                Res::Panic => "p".to_string(),
+            });
+        }
+        res_s.push(v.join("."));
+    }
+    let sched_s: String = if chosen.is_empty() {
+        "-".to_string()
+    } else {
+        chosen.iter().map(|t| char::from(b'0' + *t as u8)).collect()
+    };
+    let mut entry = format!("{}|{}|{}", sched_s, log.join(","), res_s.join("/"));
+    if !same || !intact || stuck > 0 || overflow {
+        entry.push_str(&format!(
+            "|!same={},intact={},stuck={},overflow={}",
+            same as u8, intact as u8, stuck, overflow as u8
+        ));
+    }
+    Exec {
+        sched: chosen,
+        enabled: enabled_sets,
+        entry,
+    }
+}
+
+/// Spawn the worker threads of `prog`, run `body` (which calls `run_once` any number of times), stop them.
+fn with_pool<R>(prog: &[Vec<Call>], body: impl FnOnce(&Arc<Sched>) -> R) -> R {
+    let n = prog.len();
+    let sched = Arc::new(Sched {
+        m: Mutex::new(Inner {
+            generation: 0,
+            quit: false,
+            holder: None,
+            results: Vec::new(),
+            status: vec![St::Done; n],
+            next_ticket: 1,
+            log: Vec::new(),
+            free_run: false,
+            started: false,
+            finished: false,
+            prefix: Vec::new(),
+            pos: 0,
+            strict: false,
+            chosen: Vec::new(),
+            enabled_sets: Vec::new(),
+            stuck: 0,
+            overflow: false,
+            error: None,
+        }),
+        ctl: Condvar::new(),
+        cvs: (0..n).map(|_| Condvar::new()).collect(),
+    });
+    std::thread::scope(|sc| {
+        for (tid, calls) in prog.iter().enumerate() {
+            let sched = sched.clone();
+            sc.spawn(move || worker(tid, calls, sched));
+        }
+        let r = body(&sched);
+        sched.m.lock().unwrap().quit = true;
+        for c in &sched.cvs {
+            c.notify_all();
+        }
+        r
+    })
+}
+
+fn parse_prog(s: &str) -> Vec<Vec<Call>> {
+    s.split('/')
+        .map(|th| {
+            if th.is_empty() || th == "-" {
+                return vec![];
+            }
+            th.split('.')
+                .map(|c| {
+                    if c == "g" {
+                        Call::Get
+                    } else if c == "i" {
+                        Call::IsSet
+                    } else if let Some(id) = c.strip_prefix('s') {
+                        Call::Set(id.parse().expect("payload id"))
+                    } else {
+                        panic!("bad call {:?}", c)
+                    }
+                })
+                .collect()
+        })
+        .collect()
+}
+
+pub fn run_case(line: &str) -> String {
+    install_tracer();
+    let t: Vec<&str> = line.split_whitespace().collect();
+    match t.as_slice() {
+        ["A", prog] => {
+            let prog = parse_prog(prog);
+            assert!(prog.len() <= 9);
+            let entries = with_pool(&prog, |sched| {
+            let mut entries = Vec::new();
+            let mut prefix: Vec<usize> = Vec::new();
+            loop {
+                let ex = run_once(sched, &prefix, true);
+                let overflow = ex.entry.ends_with("overflow=1");
+                entries.push(ex.entry);
+                if overflow {
+                    break; // unbounded executions (e.g. a spin loop): enumeration is pointless
+                }
+                // backtrack: deepest position with an untried runnable thread
+                let mut d = ex.sched.len();
+                let mut next = None;
+                while d > 0 {
+                    d -= 1;
+                    if let Some(t) = ex.enabled[d].iter().find(|t| **t > ex.sched[d]) {
+                        next = Some((d, *t));
+                        break;
+                    }
+                }
+                match next {
+                    None => break,
+                    Some((d, t)) => {
+                        prefix = ex.sched[..d].to_vec();
+                        prefix.push(t);
+                    }
+                }
+                if entries.len() > 2_000_000 {
+                    break;
+                }
+            }
+            entries
+            });
+            format!("n={} {}", entries.len(), entries.join(";"))
+        }
+        ["S", prog, sched] => {
+            let prog = parse_prog(prog);
+            let prefix: Vec<usize> = if *sched == "-" {
+                vec![]
+            } else {
+                sched.bytes().map(|b| (b - b'0') as usize).collect()
+            };
+            let ex = with_pool(&prog, |sched| run_once(sched, &prefix, false));
+            format!("n=1 {}", ex.entry)
+        }
+        _ => panic!("bad singleton case {:?}", line),
+    }
 }
